@@ -110,3 +110,18 @@ PROPS.update({
 TECHNIQUE.update({
     "C11": "error-variant flow (constructible variants vs. classification of match arms in the MIR), panic-site audit of the daemon task's call graph, single-writer rule for the sequence counter",
 })
+
+PROPS.update({
+    "C07": {
+        "decided": "PDU assembly discipline of both entities: every PDU{header, payload} aggregate takes its header from the side's get_header with the side's direction, the PDU type matching the payload variant and a data-field length computed by encoded_len from that very payload under config.file_size_flag, and is handed to the transport addressed to the peer; get_header wires the seven identifying fields to the like-named configuration fields, the per-PDU fields to its arguments, copies the rest from the cache and is the cache's only writer; a read at an explicit offset is bracketed by stream_position / seek(Start(saved)) on every successful path; the segment reader seeks to the offset it reports, bounds the read by take(length.unwrap_or(config.file_size_segment)) and returns the buffer it filled; MetadataPDU / EndOfFile / file-data / receiver-side Metadata fields are wired to the like-named sources; the EOF checksum is FileChecksum::checksum of the transaction's own file handle (opened from metadata.source_filename), cached only by get_checksum.",
+        "not_decided": "Byte/offset arithmetic for all sizes and NAK shapes (segment splitting, end-of-file clipping, tiling without gap or overlap), what the sender does under a given NAK sequence.",
+    },
+    "C08": {
+        "decided": "Provenance and bounds of NAK construction: every SegmentRequestForm the receiver builds is a pair yielded by iterating Segments::gaps(..), the (0,0) marker under metadata.is_none(), or (end of held data before storing, offset of the stored segment) under offset > previous end; a NAK PDU carries naks.drain(..min(len, max_nak_num(config.file_size_flag, config.file_size_segment))) and its scope is first().start_offset / last().end_offset of exactly those requests; the full list is gaps(0, EOF size or end of held data) plus the marker; the NAK queue is only ever replaced by get_all_naks(); Segments::is_complete depends on the first held start (C09-G2).",
+        "not_decided": "Exactness of the gap computation itself (C09: on the pinned tree gaps() yields an inverted/empty range when the window ends inside held data - found by reading, not by a rule), ordering of queued requests relative to the scope, timing of deferred/immediate NAKs.",
+    },
+})
+TECHNIQUE.update({
+    "C07": "provenance (origin tracing over MIR with ?/clone plumbing peeled) of every PDU aggregate's fields; must-pass-through bracket rule; single-writer rules",
+    "C08": "provenance of every SegmentRequestForm / NAK PDU field over MIR + guarded construction (world-set dataflow)",
+})
